@@ -67,7 +67,8 @@ class TargetEfficiencySetter(Contract):
         return [{"value": "float"}, {"value": "pair"}, {"value": "triple"}, {"value": "int-pair"}]
 
     def setup(self, I, shape):
-        s = Obj("SMCSampler", {"_adapative_target_efficiency": B(False)})
+        # the sampler may have been used before: the flag (and a previous target) are whatever the last call left
+        s = Obj("SMCSampler", {"_adapative_target_efficiency": B(z3.Bool("flag_left_by_previous_call"))})
         k = shape["value"]
         if k == "float":
             v = R(z3.Real("value"))
@@ -85,14 +86,14 @@ class TargetEfficiencySetter(Contract):
         te = s.f.get("_target_efficiency")
         if k == "float":
             p.prove(z3.And(v.e > 0, v.e < 1, te.e == v.e, z3.Not(s.f["_adapative_target_efficiency"].e)),
-                    f"{self.qual}:accepted-float-in-(0,1)-stored-unchanged")
+                    f"{self.qual}:C06:accepted-float-in-(0,1)-stored-unchanged, ramp flag cleared whatever a previous call left")
         elif k in ("pair", "int-pair"):
             a, b = (to_real(x) for x in v.items)
             ok = isinstance(te, Tup) and len(te.items) == 2
             p.prove(z3.BoolVal(ok), f"{self.qual}:pair-stored-as-pair")
             if ok:
                 p.prove(z3.And(0 < a, a < b, b < 1, to_real(te.items[0]) == a, to_real(te.items[1]) == b, s.f["_adapative_target_efficiency"].e),
-                        f"{self.qual}:accepted-pair-increasing-in-(0,1)")
+                        f"{self.qual}:C06:accepted-pair-increasing-in-(0,1), ramp flag set")
         else:
             p.prove(z3.BoolVal(False), f"{self.qual}:triple-must-raise")
 
@@ -306,6 +307,9 @@ class DetermineBeta(Contract):
             p.prove(adaptive, f"pre[{q}]: adaptive or beta_step > 0", kind="precondition")
         floor = b + z3.If(m2 >= to_real(tol), m2, to_real(tol))
         p.assume(z3.Implies(adaptive, z3.Or(b2 == 1, b2 >= floor)), check=False)
+        ams = s.f.get("adaptive_min_step")
+        if isinstance(ams, Z):
+            p.assume(z3.Implies(z3.Not(ams.e), m2 == to_real(ms)), check=False)     # proved for the body: min_step is only rescaled when adaptive_min_step is set
         p.event("determine_beta", samples, beta, R(b2), tol, ms)
         return Tup([R(b2), R(m2)])
 
@@ -526,6 +530,12 @@ class RestoreFromCheckpointModel(Contract):
             ck_pop.f[k] = pop.f[k]          # the stored copy has the same values as the restored population
         h["sample_history"] = SymList(z3.If(stored, it + 1, 0), ck_pop, None, "sample_history", elem="pop")
         bound.f["history"] = Obj("SMCHistory", h)
+        if p.choose(2, "checkpointed-min-step") == 0:
+            bound.f["_min_step"] = NONE
+        else:
+            cms = z3.Real("ck_min_step")
+            p.assume(cms >= 0, check=False)
+            bound.f["_min_step"] = R(cms)
         p.ghost["ck"] = {"it": it, "beta": b, "stored": stored, "pop": pop, "max_reached": None}
         # "same sampling arguments": the checkpoint satisfies the loop invariant of the run that wrote it
         g = getattr(getattr(p, "pre", None), "ghost", {})
@@ -611,7 +621,7 @@ class Sample(Contract):
             "resume_from": Sym(z3.Const("resume_bytes", Misc), "bytes") if shape["resume_from"] else NONE,
             "store_sample_history": B(store), "beta_tolerance": R(tol),
         }
-        g = {"shape": shape, "N": N, "n_steps": n_steps, "max_n": max_n, "n_final": n_final, "every": every, "tol": tol,
+        g = {"shape": shape, "N": N, "n_steps": n_steps, "max_n": max_n, "n_final": n_final, "every": every, "tol": tol, "ms": ms,
              "adaptive": adaptive, "store": store, "self": s}
         return Pre(s, [IV(N)], kw, g)
 
@@ -650,6 +660,8 @@ class Sample(Contract):
                 out.append(("C06 C11 step cap not yet reached at loop head", it < g["max_n"]))
             if isinstance(e.get("min_step"), Z):
                 out.append(("min_step >= 0", to_real(e["min_step"]) >= 0))
+                if sh["min_step"]:
+                    out.append(("C06 the minimum step given to sample() is the one in force (also on a resumed run)", to_real(e["min_step"]) == g["ms"]))
             if sh["n_steps"]:
                 # fixed schedule lives on the grid (over R): beta == iterations / n_steps
                 out.append(("C06 fixed schedule: beta == iterations / n_steps",
